@@ -471,11 +471,13 @@ func (p *parser) primary() (Expr, error) {
 					return nil, fmt.Errorf("expected bound variable in %q", p.src)
 				}
 				qv := QVar{v.s, "int"}
-				if p.peek().k == "ident" { // "k int" style
-					qv.Type = p.next().s
-				} else if p.isOp("*") { // "a *Arg"
-					p.p++
-					qv.Type = "*" + p.next().s
+				// optional type: tokens up to ',' or '::'
+				var ty []string
+				for !(p.isOp(",") || p.isOp("::") || p.peek().k == "eof") {
+					ty = append(ty, p.next().s)
+				}
+				if len(ty) > 0 {
+					qv.Type = strings.Join(ty, "")
 				}
 				vars = append(vars, qv)
 				if p.isOp(",") {
@@ -555,6 +557,7 @@ type SpecFunc struct {
 	Text   string
 	Pkg    string
 	Opaque bool
+	NoInline bool
 }
 
 type Lemma struct {
@@ -565,6 +568,7 @@ type Lemma struct {
 	Props    []string
 	Pkg      string
 	Induct   string
+	Uses     []string
 }
 
 type GhostDecl struct {
@@ -582,7 +586,7 @@ type Contracts struct {
 	Axioms []*Clause
 }
 
-var kwRe = regexp.MustCompile(`^(func|extern|requires|ensures|modifies|loop|spec|pred|lemma|ghost|at-return|option|axiom|pure|induction)\b`)
+var kwRe = regexp.MustCompile(`^(func|extern|requires|ensures|modifies|loop|spec|pred|lemma|ghost|at-return|option|axiom|pure|induction|uses)\b`)
 var tagRe = regexp.MustCompile(`^\[([^\]]*)\]\s*`)
 
 func newContracts() *Contracts {
@@ -690,6 +694,13 @@ func (cs *Contracts) parseFile(path, pkg string) error {
 			} else {
 				cur.Ensures = append(cur.Ensures, c)
 			}
+		case "uses":
+			if curLemma == nil {
+				return fail(fmt.Errorf("uses outside lemma"))
+			}
+			for _, u := range strings.Split(rest, ",") {
+				curLemma.Uses = append(curLemma.Uses, strings.TrimSpace(u))
+			}
 		case "induction":
 			if curLemma == nil {
 				return fail(fmt.Errorf("induction outside lemma"))
@@ -755,6 +766,10 @@ func (cs *Contracts) parseFile(path, pkg string) error {
 				return fail(fmt.Errorf("bad spec header"))
 			}
 			sf := &SpecFunc{Name: strings.TrimSpace(rest[:i]), Pkg: pkg}
+			if strings.HasPrefix(sf.Name, "noinline ") {
+				sf.NoInline = true
+				sf.Name = strings.TrimSpace(sf.Name[9:])
+			}
 			sf.Params = parseParams(rest[i+1 : j])
 			tail := strings.TrimSpace(rest[j+1:])
 			k := strings.Index(tail, "=")
